@@ -349,10 +349,89 @@ func c18keyRewrite(c *core.Ctx) {
 	}
 }
 
+// a list whose entries were all deleted does not exist any more: inserting it again is not a conflict, and a read
+// does not show it
+func c18emptied(c *core.Ctx) {
+	y := `module em { namespace "urn:em"; prefix em; revision 2020-01-01;
+  list l { key id; leaf id { type string; } leaf n { type int32; } } leaf other { type string; } }`
+	m, err := parser.LoadModuleFromString(nil, y)
+	if err != nil {
+		c.Violation(core.Replay{Kind: "harness", Summary: "c18emptied module: " + err.Error(), NoInputFound: true})
+		return
+	}
+	for _, be := range []string{"node-map", "reflect-map", "node-struct", "reflect-struct"} {
+		for _, dels := range [][]string{{"l=a", "l=b"}, {"l=b", "l=a"}, {"l"}, {"l=a", "l"}} {
+			for _, op := range []string{"insert", "upsert", "read"} {
+				var got, want string
+				e := safeDo(func() error {
+					var root node.Node
+					switch be {
+					case "node-map":
+						root = &nodeutil.Node{Object: map[string]interface{}{}}
+					case "reflect-map":
+						root = nodeutil.ReflectChild(map[string]interface{}{})
+					case "node-struct":
+						root = &nodeutil.Node{Object: &c18ERoot{}}
+					case "reflect-struct":
+						root = nodeutil.ReflectChild(&c18ERoot{})
+					}
+					b := node.NewBrowser(m, root)
+					src, _ := nodeutil.ReadJSON(`{"l":[{"id":"a","n":1},{"id":"b","n":2}],"other":"o"}`)
+					if err := b.Root().UpsertFrom(src); err != nil {
+						return fmt.Errorf("load: %v", err)
+					}
+					for _, d := range dels {
+						sel, err := b.Root().Find(d)
+						if err != nil || sel == nil {
+							return fmt.Errorf("find %s: %v", d, err)
+						}
+						if err := sel.Delete(); err != nil {
+							return fmt.Errorf("delete %s: %v", d, err)
+						}
+					}
+					want = `{"other":"o"}`
+					if op != "read" {
+						want = `{"l":[{"id":"c","n":3}],"other":"o"}`
+						doc, _ := nodeutil.ReadJSON(`{"l":[{"id":"c","n":3}]}`)
+						var err error
+						if op == "insert" {
+							err = b.Root().InsertFrom(doc)
+						} else {
+							err = b.Root().UpsertFrom(doc)
+						}
+						if err != nil {
+							return fmt.Errorf("%s of the list again: %v", op, err)
+						}
+					}
+					var err error
+					got, err = nodeutil.WriteJSON(b.Root())
+					return err
+				})
+				if e != nil {
+					got = "error " + short(e.Error())
+				}
+				c.Evaluations++
+				c.Count("emptied_list", be+" "+op)
+				c.Distinct("emptied " + be + op + strings.Join(dels, ","))
+				if got != want {
+					c.Violation(core.Replay{Kind: "property-failure", Class: "emptied-list-" + be, Summary: fmt.Sprintf("%s: after the deletes %v and %s: %s, want %s", be, dels, op, got, want),
+						Input: map[string]interface{}{"yang": y, "backend": be, "deletes": dels, "then": op}, Impl: got, Spec: want})
+				}
+			}
+		}
+	}
+}
+
+type c18ERoot struct {
+	L     []*c18KRow
+	Other string
+}
+
 func C18(c *core.Ctx) {
 	c18accessors(c)
 	c18keyRewrite(c)
-	c.Rule = "operation sequences of length 1–12 (upsert / insert / update documents, delete of a container, of a list entry (present or absent key), of a whole list, replace of a container or list) at a random location (root, container, list entry) of generated trees, on the reference store and on reflection over maps; after every operation the status, the complete store content re-read independently of the library, Find of the deleted key and of every remaining entry are compared with the Lean model; directed: edits addressed at a list entry (upsert, update, replace, insert) whose document names the same, another existing or a new key or none, on map-, slice- and struct-backed nodes: keys stay unique, every entry is found under the key it shows, and the verdict and resulting entry are those of Model/EntryKey.editEntry. non-trivial = sequence with ≥1 delete/replace that hits existing data; distinct by (schema, initial tree, sequence, target)"
+	c18emptied(c)
+	c.Rule = "operation sequences of length 1–12 (upsert / insert / update documents, delete of a container, of a list entry (present or absent key), of a whole list, replace of a container or list) at a random location (root, container, list entry) of generated trees, on the reference store and on reflection over maps; after every operation the status, the complete store content re-read independently of the library, Find of the deleted key and of every remaining entry are compared with the Lean model; directed: edits addressed at a list entry (upsert, update, replace, insert) whose document names the same, another existing or a new key or none, on map-, slice- and struct-backed nodes: keys stay unique, every entry is found under the key it shows, and the verdict and resulting entry are those of Model/EntryKey.editEntry; lists emptied by deletes (entry by entry, as a whole) on the same four backends are gone for a read and can be inserted again. non-trivial = sequence with ≥1 delete/replace that hits existing data; distinct by (schema, initial tree, sequence, target)"
 	c.Assumptions = append(c.Assumptions,
 		"replace of a single list entry (ReplaceFrom on an entry) is exercised only through delete + upsert sequences, the model has no separate operation for it",
 		"map-backed targets are compared with list entry order ignored")
